@@ -160,15 +160,42 @@ fn outer_value() -> Outer {
     Outer { a: vec![i(true, Some("x")), i(false, None)], m, o: Some(i(true, None)), n: Alias(i(false, Some("n"))), e: vec![En::U, En::N(i(true, None)), En::T(3, i(false, None)), En::S { x: i(true, Some("s")) }], t: (i(true, None), 9) }
 }
 
-fn static_de(fmt: &str, side: &str, bytes: &[u8]) -> String {
-    let r: Result<Outer, String> = match (fmt, side) {
-        ("json", "client") => conjure_serde::json::client_from_slice(bytes).map_err(|e| e.to_string()),
-        ("json", _) => conjure_serde::json::server_from_slice(bytes).map_err(|e| e.to_string()),
-        (_, "client") => conjure_serde::smile::client_from_slice(bytes).map_err(|e| e.to_string()),
-        _ => conjure_serde::smile::server_from_slice(bytes).map_err(|e| e.to_string()),
-    };
+/// every public entry point of the side and format (slice, str / mut slice, reader); they must agree
+fn static_all(fmt: &str, side: &str, bytes: &[u8]) -> Vec<(&'static str, Result<Outer, String>)> {
+    let e = |e: serde_json::Error| e.to_string();
+    let es = |e: serde_smile::Error| e.to_string();
+    let mut copy = bytes.to_vec();
+    match (fmt, side) {
+        ("json", "client") => {
+            let mut v = vec![("client_from_slice", conjure_serde::json::client_from_slice(bytes).map_err(e)), ("client_from_reader", conjure_serde::json::client_from_reader(bytes).map_err(e))];
+            if let Ok(s) = std::str::from_utf8(bytes) {
+                v.push(("client_from_str", conjure_serde::json::client_from_str(s).map_err(e)));
+            }
+            v
+        }
+        ("json", _) => {
+            let mut v = vec![("server_from_slice", conjure_serde::json::server_from_slice(bytes).map_err(e)), ("server_from_reader", conjure_serde::json::server_from_reader(bytes).map_err(e))];
+            if let Ok(s) = std::str::from_utf8(bytes) {
+                v.push(("server_from_str", conjure_serde::json::server_from_str(s).map_err(e)));
+            }
+            v
+        }
+        (_, "client") => vec![
+            ("client_from_slice", conjure_serde::smile::client_from_slice(bytes).map_err(es)),
+            ("client_from_reader", conjure_serde::smile::client_from_reader(std::io::BufReader::new(bytes)).map_err(es)),
+            ("client_from_mut_slice", conjure_serde::smile::client_from_mut_slice(&mut copy).map_err(es)),
+        ],
+        _ => vec![
+            ("server_from_slice", conjure_serde::smile::server_from_slice(bytes).map_err(es)),
+            ("server_from_reader", conjure_serde::smile::server_from_reader(std::io::BufReader::new(bytes)).map_err(es)),
+            ("server_from_mut_slice", conjure_serde::smile::server_from_mut_slice(&mut copy).map_err(es)),
+        ],
+    }
+}
+
+fn static_view(r: &Result<Outer, String>) -> String {
     match r {
-        Ok(v) => format!("ok {:?}", v == outer_value()),
+        Ok(v) => format!("ok {:?}", *v == outer_value()),
         Err(e) => {
             if let Some(i) = e.find("unknown field `") {
                 let rest = &e[i + 15..];
@@ -179,6 +206,14 @@ fn static_de(fmt: &str, side: &str, bytes: &[u8]) -> String {
             "err".into()
         }
     }
+}
+
+/// the view through `*_from_slice`, and the first entry point (if any) that sees the document differently
+fn static_de(fmt: &str, side: &str, bytes: &[u8]) -> (String, Option<String>) {
+    let all = static_all(fmt, side, bytes);
+    let first = static_view(&all[0].1);
+    let odd = all.iter().skip(1).find(|(_, r)| static_view(r) != first).map(|(n, r)| format!("{} {} says `{}` where {} says `{}`", fmt, n, static_view(r), all[0].0, first));
+    (first, odd)
 }
 
 fn one_injection(cs: &mut Cases, class: &str, rng: &mut Rng, fmt: &str, ty: &DynTy, val: &DynVal, base: &Tree, count: usize, static_check: bool) {
@@ -241,7 +276,10 @@ fn one_injection(cs: &mut Cases, class: &str, rng: &mut Rng, fmt: &str, ty: &Dyn
                 if static_check {
                     let b2 = bytes.clone();
                     let (f2, s2) = (fmt.to_string(), side.to_string());
-                    let st = guarded(move || static_de(&f2, &s2, &b2)).unwrap_or_else(|p| format!("panic {}", p));
+                    let (st, odd) = guarded(move || static_de(&f2, &s2, &b2)).unwrap_or_else(|p| (format!("panic {}", p), None));
+                    if let Some(odd) = odd {
+                        cs.fail_last(if side == "client" { "client:entry-points-disagree" } else { "server:entry-points-disagree" }, odd);
+                    }
                     let dynamic = match &r {
                         Ok(v) => format!("ok {:?}", v == val),
                         Err(_) => shown.replace("err-unknown ", "err-unknown:"),
